@@ -74,9 +74,51 @@ def prog_shard(shard):
     return p
 
 
+PRELOAD_TEXTS = [
+    ".data\nb: .byte 1, 2, 3\n.text\nnop\n", ".data\nh: .half 0x1234, 7\nw: .word 9\n.text\nnop\n", ".data\nw: .word 1, 2, 3, 4, 5\n.text\nnop\n",
+    ".data\ns: .string \"hi!\"\nw: .word 7\n.text\nnop\n", ".data\nz: .zero 3\nb: .byte 9\n.text\nnop\n", ".data\ne: .string \"\"\nh: .half -1\n.text\nnop\n",
+    "nop\n.data\nb: .byte 1\nh: .half 2\nw: .word 3\ns: .string \"abcd\"\nz: .zero 1\nw2: .word 4\n",
+]
+
+
+def preload_shard(shard):
+    """After load_program of a program with a data segment (every declaration kind) the data-cache counters, the cycle
+    counter and the cache itself are untouched, and a first load of each declared word is a miss."""
+    ti = shard
+    from architecture_simulator.simulation.riscv_simulation import RiscvSimulation
+    p = Partial()
+    text = PRELOAD_TEXTS[ti]
+    for ci, (ib, bb, ways, kind, policy) in enumerate(c03.PROG_CACHES):
+        for mode in (rv.SINGLE, rv.FIVE):
+            for loads in (1, 2):
+                sim = RiscvSimulation(mode=mode, data_cache=rv.cache_opts(ib, bb, ways, kind, policy, 3))
+                for _ in range(loads):
+                    sim.load_program(text)
+                st = sim.get_data_cache_stats()
+                p.evaluations += 1
+                p.nontrivial += 1
+                p.counters["preload"] += 1
+                bad = []
+                if st["accesses"] != "0" or st["hits"] != "0" or st["last_hit"]:
+                    bad.append(("preload-counted", f"data-cache counters after {loads} load(s): {st}"))
+                if sim.state.performance_metrics.cycles != 0:
+                    bad.append(("preload-penalty", f"cycle counter is {sim.state.performance_metrics.cycles} after loading"))
+                cr = sim.get_data_cache_entries()
+                if any(b.valid_bit == "1" for s_ in cr.sets for b in s_.blocks):
+                    bad.append(("preload-allocates", "the data cache holds valid blocks right after load_program"))
+                for f, d in bad:
+                    p.violation(dict(oracle="preload", field=f), dict(kind="preload", ti=ti, ci=ci, mode=mode, loads=loads),
+                                f"{text!r} {kind}/{policy} i{ib}b{bb}w{ways} {mode}: {d}", size=(ti, ci, loads))
+    p.sample(dict(kind="preload", text=text))
+    return p
+
+
 def replay(case):
     if case["kind"] == "cache-history":
         return cachebfs.replay(case)
+    if case["kind"] == "preload":
+        part = preload_shard(case["ti"])
+        return [(lst[0][1], lst[0][3]) for _k, (n, lst) in part.viol.items()]
     prog = [tuple(i) for i in case["prog"]]
     ci = case["ci"]
     pd = {4 * i: ins for i, ins in enumerate(prog)}
@@ -109,7 +151,7 @@ def run(ctx):
                 "replayed on fresh objects; per transition d(accesses), d(hits), last_hit and d(cycles) must equal a reference set-associative "
                 "cache (write-back = write-allocate, write-through = no-write-allocate, reads always allocate, LRU/PLRU from the reference "
                 "policies); in every state the resident (set, tag) pairs shown by cache_repr() equal the reference's (one-step look-ahead). "
-                "Control fixed point: with constant data the BFS runs to closure. Program clause: counters identical in both pipeline modes, "
+                "Control fixed point: with constant data the BFS runs to closure. Preload clause: after load_program of programs with every kind of data declaration (loaded once or twice) counters, cycle counter and cache are untouched. Program clause: counters identical in both pipeline modes, "
                 "accesses = loads+stores of the golden run, hits = reference cache on the golden access stream. Non-trivial = history with an "
                 "eviction or rejection / program with both hits and misses.")
     ctx.assumptions += ["counters are excluded from the state key; their deltas are checked on every transition",
@@ -146,3 +188,7 @@ def run(ctx):
         part = pmap(prog_shard, [(L, f, 6) for f in range(len(c03.mem_alphabet()))])
         ctx.space(f"cached-programs-len{L}", part, t0, length=L, cache_configs=6, modes=2)
     ctx.require("program-eviction", "program-uncounted-read")
+    t0 = time.time()
+    part = pmap(preload_shard, list(range(len(PRELOAD_TEXTS))))
+    ctx.space("parser-preloads", part, t0, texts=len(PRELOAD_TEXTS), cache_configs=6, modes=2)
+    ctx.require("preload")
